@@ -1,5 +1,5 @@
 # Build/verify the framework from files on disk only (offline).
-SPECS := CkptActions Executor SchedAPI TraceExec TraceClient TraceDomain TraceSibling TraceTwoLevel TraceMultistage TracePeriodic ExecFree GenBasic GenBasicFree GenBinomialCore GenBinomial TraceGenBinomial GenTwoLevel GenMixedCore GenMixed TraceGenMixed ExecRefines ExecOptCore ExecOpt OptTables HierTables GWForm CostOrder Client Process Domain DomainGen ActionUniverse ActionPairs ActionPairsGen PlanTable OpMachine TraceOps OpRefines OpOpt ExecIndCore GenTwoLevelCore TraceGenTwoLevel TraceGenBasic
+SPECS := CkptActions Executor SchedAPI TraceExec TraceClient TraceDomain TraceSibling TraceTwoLevel TraceMultistage TracePeriodic ExecFree GenBasic GenBasicFree GenBinomialCore GenBinomial TraceGenBinomial GenTwoLevel GenMixedCore GenMixed TraceGenMixed ExecRefines ExecOptCore ExecOpt OptTables HierTables GWForm CostOrder Client Process Domain DomainGen ActionUniverse ActionPairs ActionPairsGen PlanTable OpMachine TraceOps OpRefines OpOpt ExecIndCore GenTwoLevelCore TraceGenTwoLevel TraceGenBasic GenDiskCore GenDisk TraceGenDisk
 PY := /venv/bin/python
 
 .PHONY: setup sany manifest selftest clean apalache tlaps
